@@ -465,6 +465,7 @@ theorem step_inv (hs : SlashCodeOk) (hg : GuardCodeOk) (s : State) (op : Op) (hi
   | conf k n e b sg => exact confirm_inv s k n e b sg hi
   | observe n => simp only [step, observe]; repeat' split
                  all_goals first | exact hi | exact inv_same s _ hi rfl rfl rfl rfl
+  | event bs bcs cs obs => exact inv_same s _ hi rfl rfl rfl rfl
   | block dt => exact block_inv hs s dt hi
   | valslash v num den => simp only [step, valSlash]; split <;> first | exact hi | exact inv_same s _ hi rfl rfl rfl rfl
 
